@@ -30,25 +30,25 @@ def fact_body_Program_checkResize : List String := [
     "{ if p.ttyOutput == nil { return } p.resizeMu.Lock() defer p.resizeMu.Unlock() v1, v2, v3 := term.GetSize(p.ttyOutput.Fd()) if v3 != nil { select { case <-p.ctx.Done(): case p.errs <- v3: } return } verifPause(\"checkResize: size read\") p.Send(WindowSizeMsg{ Width: v1, Height: v2, }) }"]
 
 def fact_body_Program_handleCommands : List String := [
-    "{ v1 := make(chan struct{}) go func() { defer close(v1) for { select { case <-p.ctx.Done(): return case v2 := <-a1: if v2 == nil { continue } go func() { if !p.startupOptions.has(withoutCatchPanics) { defer p.recoverFromPanic() } v3 := v2() p.Send(v3) }() } } }() return v1 }"]
+    "{ v1 := make(chan struct{}) go func() { defer close(v1) defer verifPause(\"cmds: exit\") for { select { case <-p.ctx.Done(): return case v2 := <-a1: if v2 == nil { continue } go func() { if !p.startupOptions.has(withoutCatchPanics) { defer p.recoverFromPanic() } v3 := v2() p.Send(v3) }() } } }() return v1 }"]
 
 def fact_body_Program_handleResize : List String := [
     "{ v1 := make(chan struct{}) if p.ttyOutput != nil { go p.checkResize() go p.listenForResize(v1) } else { close(v1) } return v1 }"]
 
 def fact_body_Program_handleSignals : List String := [
-    "{ v1 := make(chan struct{}) go func() { v2 := make(chan os.Signal, 1) signal.Notify(v2, syscall.SIGINT, syscall.SIGTERM) defer func() { signal.Stop(v2) close(v1) }() for { select { case <-p.ctx.Done(): return case v3 := <-v2: if atomic.LoadUint32(&p.ignoreSignals) == 0 { switch v3 { case syscall.SIGINT: p.Send(InterruptMsg{}) default: p.Send(QuitMsg{}) } return } } } }() return v1 }"]
+    "{ v1 := make(chan struct{}) go func() { v2 := make(chan os.Signal, 1) signal.Notify(v2, syscall.SIGINT, syscall.SIGTERM) defer func() { signal.Stop(v2) verifPause(\"sig: exit\") close(v1) }() for { select { case <-p.ctx.Done(): return case v3 := <-v2: if atomic.LoadUint32(&p.ignoreSignals) == 0 { switch v3 { case syscall.SIGINT: p.Send(InterruptMsg{}) default: p.Send(QuitMsg{}) } return } } } }() return v1 }"]
 
 def fact_body_Program_initCancelReader : List String := [
-    "{ if a1 && p.cancelReader != nil { p.cancelReader.Cancel() p.waitForReadLoop() } var v1 error p.cancelReader, v1 = newInputReader(p.input, p.mouseMode) if v1 != nil { return fmt.Errorf(\"error creating cancelreader: %w\", v1) } p.readLoopDone = make(chan struct{}) go p.readLoop() return nil }"]
+    "{ if a1 && p.cancelReader != nil { p.cancelReader.Cancel() p.waitForReadLoop() } var v1 error p.cancelReader, v1 = newInputReader(p.input, p.mouseMode) if v1 != nil { return fmt.Errorf(\"error creating cancelreader: %w\", v1) } p.readLoopDone = make(chan struct{}) verifPause(\"reader: spawn\") go p.readLoop() return nil }"]
 
 def fact_body_Program_initInput : List String := [
     "{ if v1, v2 := p.input.(term.File); v2 && term.IsTerminal(v1.Fd()) { p.ttyInput = v1 p.previousTtyInputState, o1 = term.MakeRaw(p.ttyInput.Fd()) if o1 != nil { return fmt.Errorf(\"error entering raw mode: %w\", o1) } } if v3, v4 := p.output.(term.File); v4 && term.IsTerminal(v3.Fd()) { p.ttyOutput = v3 } return nil }"]
 
 def fact_body_Program_listenForResize : List String := [
-    "{ v1 := make(chan os.Signal, 1) signal.Notify(v1, syscall.SIGWINCH) defer func() { signal.Stop(v1) close(a1) }() for { select { case <-p.ctx.Done(): return case <-v1: } p.checkResize() } }"]
+    "{ v1 := make(chan os.Signal, 1) signal.Notify(v1, syscall.SIGWINCH) defer func() { signal.Stop(v1) verifPause(\"resize: exit\") close(a1) }() for { select { case <-p.ctx.Done(): return case <-v1: } p.checkResize() } }"]
 
 def fact_body_Program_readLoop : List String := [
-    "{ defer close(p.readLoopDone) v1 := readInputs(p.ctx, p.msgs, p.cancelReader) if !errors.Is(v1, io.EOF) && !errors.Is(v1, cancelreader.ErrCanceled) { select { case <-p.ctx.Done(): case p.errs <- v1: } } }"]
+    "{ defer close(p.readLoopDone) defer verifPause(\"reader: exit\") v1 := readInputs(p.ctx, p.msgs, p.cancelReader) if !errors.Is(v1, io.EOF) && !errors.Is(v1, cancelreader.ErrCanceled) { select { case <-p.ctx.Done(): case p.errs <- v1: } } }"]
 
 def fact_body_Program_restoreInput : List String := [
     "{ if p.ttyInput != nil && p.previousTtyInputState != nil { if v1 := term.Restore(p.ttyInput.Fd(), p.previousTtyInputState); v1 != nil { return fmt.Errorf(\"error restoring console: %w\", v1) } } if p.ttyOutput != nil && p.previousOutputState != nil { if v2 := term.Restore(p.ttyOutput.Fd(), p.previousOutputState); v2 != nil { return fmt.Errorf(\"error restoring console: %w\", v2) } } return nil }"]
@@ -332,6 +332,7 @@ def fact_order_Program_Run : List String := [
     "p.cancel",
     "openInputTTY",
     "openInputTTY",
+    "verifPause",
     "p.startupOptions.has",
     "[!p.startupOptions.has(withoutSignalHandler)]p.handlers.add",
     "[!p.startupOptions.has(withoutSignalHandler)]p.handleSignals",
@@ -339,7 +340,9 @@ def fact_order_Program_Run : List String := [
     "[!p.startupOptions.has(withoutCatchPanics)]{lit}[_ != nil]p.handlePanic",
     "[p.renderer == nil]newRenderer",
     "[p.renderer == nil]p.startupOptions.has",
+    "verifPause",
     "p.initTerminal",
+    "[_ != nil]verifPause",
     "[p.startupTitle != \"\"]p.renderer.setWindowTitle",
     "[p.startupOptions&withAltScreen != 0]p.renderer.enterAltScreen",
     "[p.startupOptions&withoutBracketedPaste == 0]p.renderer.enableBracketedPaste",
@@ -348,22 +351,32 @@ def fact_order_Program_Run : List String := [
     "[!p.startupOptions&withMouseCellMotion != 0][p.startupOptions&withMouseAllMotion != 0]p.renderer.enableMouseAllMotion",
     "[!p.startupOptions&withMouseCellMotion != 0][p.startupOptions&withMouseAllMotion != 0]p.renderer.enableMouseSGRMode",
     "[p.startupOptions&withReportFocus != 0]p.renderer.enableReportFocus",
+    "verifPause",
+    "verifPause",
     "p.renderer.start",
     "[_ != nil]p.handlers.add",
+    "[_ != nil]verifPause",
     "[_ != nil]{lit}close(_)",
+    "[_ != nil]{lit}verifPause",
     "[_ != nil]{lit}p.ctx.Done",
+    "verifPause",
     "p.renderer.write",
+    "verifPause",
     "[p.input != nil]p.initCancelReader(false)",
+    "[p.input != nil][_ != nil]verifPause",
     "[p.input != nil][_ != nil]p.shutdown(true)",
+    "verifPause",
     "p.handlers.add",
     "p.handleResize",
     "p.handlers.add",
     "p.handleCommands",
     "p.eventLoop",
+    "verifPause",
     "p.ctx.Err",
     "[_ && _ == nil]p.ctx.Err",
     "[_ == nil]p.renderer.write",
-    "p.shutdown(_)"]
+    "p.shutdown(_)",
+    "verifPause"]
 
 def fact_order_Program_disableMouse : List String := [
     "p.renderer.disableMouseCellMotion",
@@ -396,14 +409,19 @@ def fact_order_Program_restoreTerminalState : List String := [
     "p.restoreInput"]
 
 def fact_order_Program_shutdown : List String := [
+    "verifPause",
     "p.cancel",
     "p.handlers.shutdown",
+    "verifPause",
+    "verifPause",
     "[p.cancelReader != nil]p.cancelReader.Cancel",
     "[p.cancelReader != nil][p.cancelReader.Cancel()][!_]p.waitForReadLoop",
     "[p.cancelReader != nil]p.cancelReader.Close",
     "[p.renderer != nil][_]p.renderer.kill",
     "[p.renderer != nil][!_]p.renderer.stop",
-    "p.restoreTerminalState"]
+    "verifPause",
+    "p.restoreTerminalState",
+    "verifPause"]
 
 def fact_order_standardRenderer_kill : List String := [
     "r.halt",
